@@ -18,6 +18,43 @@ CHECKS = {
             "Addresses/counts outside the alphabet and sets of more than 4 ranges are not enumerated; merge is a sorted sweep whose "
             "decisions depend only on neighbouring ranges, which is why 4 ranges over clustered addresses exercise every branch pairing.",
             "DESIGN.md §3 C19"),
+    "C03": ("model_checking",
+            "explicit-state BFS to closure over tag-store states of the live simulator; every request of the alphabet executed by the "
+            "real request path from every state; array-model oracle on wire bytes",
+            "Breadth-first search over the contents of the tag store of a real in-process Logix simulator. From every reachable state "
+            "every well-formed request of the alphabet (Read/Write Tag [Fragmented], Get/Set Attribute Single; symbolic name in two "
+            "cases, class/instance/attribute, default attribute; every start index, count and value vector over a per-type boundary "
+            "alphabet; cross-type writes as read-back probes) is executed through Connection_Manager.request or whole frames through "
+            "logix.process, and judged against an independent array model decoding the reply bytes. The search runs until the state "
+            "graph closes, so by induction every request history over the alphabet ends in an explored state all of whose successors "
+            "were checked. States are re-established only by real Write Tag requests.",
+            "Values outside the boundary alphabets and tags longer than 3 elements are not enumerated here (C04 covers long ranges). "
+            "The oracle (mc/refmodel.py, mc/wire.py) is trusted; it shares no code with cpppo.",
+            "DESIGN.md §3 C03"),
+    "C04": ("exploration",
+            "bounded-exhaustive enumeration of (type, reply budget, tag length, start, count) read transfers driven to completion and of "
+            "all fragment compositions/orders of write ranges, on the real request path",
+            "Logix.MAX_BYTES (a user-alterable class attribute) is scaled to every value 1..20 (thorough 1..40) so that every alignment "
+            "of range end and budget boundary occurs, plus the production 488. Every read transfer of every (start,count) of tags of "
+            "length 1..12 (1..24) is driven by advancing the offset by the bytes received, with a horizon, checking per-fragment "
+            "status, whole-element and budget bounds and the exact concatenation; every composition of a write range into consecutive "
+            "fragments is written (every order for <= 4 fragments) and the store compared with the array model.",
+            "Element types are the fixed-size ones; strings/UDTs are outside the property as stated. Per-request max_size is not "
+            "reachable from the wire.",
+            "DESIGN.md §3 C04"),
+    "C05": ("model_checking",
+            "explicit-state BFS over the closed store graph; from every state the complete invalid-neighbourhood alphabet and the "
+            "request-type x tag-type matrix on the real request path; refusal status + store-unchanged + read-back oracles",
+            "From every state of the closed tag-store graph every request of the invalid neighbourhood of the valid alphabet is executed "
+            "on the real simulator: indices/counts at n-1, n, n+1, 0, 0xFFFF; byte offsets at and beyond the end and inside an element; "
+            "declared count vs supplied values (more and fewer); all 13x13 (request type, tag type) pairs with the request type's "
+            "widest values; unknown tag, attribute, instance and class; Set Attribute Single one byte short/long. The oracle demands "
+            "the documented failure status for an existing tag, a bit-identical store after every refusal, and after every "
+            "acknowledged write a successful Read Tag, Read Tag Fragmented and Get Attribute Single on the issuing and on a second "
+            "session (whole-frame seam).",
+            "Zero-data writes are treated as malformed input (C08); sub-element offsets and surplus data are outside the statement and "
+            "only checked for harmlessness.",
+            "DESIGN.md §3 C05"),
 }
 
 NOT_YET = "check not built yet in this round (see DESIGN.md build order); not claimed until its check and evidence exist"
